@@ -462,6 +462,7 @@ Fixpoint mrr_wf_node (v : rrv) (dt : list Z) (budget : nat) (isroot : bool) (n :
   | O => false
   | S f =>
       (isroot || mrr_meta_ok v dt (mrr_spec0 n) (meta_of n)) &&
+      (mrr_links n <=? 4294967295) &&            (* struct.pack of the PX link count *)
       match n with
       | RFile m len => (0 <=? len) && (len <=? Account.max_len) && (m_ino m || (len =? 0))
       | RDir m dl kids =>
